@@ -141,7 +141,7 @@ func refRoutesToEngine(mount, rawPath string) bool {
 	return c == mount
 }
 
-var routingPathClasses = []string{"exact", "exact+slash", "sub-path", "sub-path+slash", "missing-slash", "longer-name", "dot-segments", "dot-segments-out", "doubled-slashes", "case-variant", "unrelated", "root", "parent-of-mount"}
+var routingPathClasses = []string{"exact", "exact+slash", "sub-path", "sub-path+slash", "missing-slash", "longer-name", "dot-segments", "dot-segments-out", "doubled-slashes", "case-variant", "unrelated", "root", "parent-of-mount", "final-dot", "final-dotdot-back", "final-dotdot-out", "final-dot-deep", "dot-name"}
 
 func allAttachSpecs() []attachSpec {
 	var out []attachSpec
@@ -189,6 +189,21 @@ func instantiatePath(rt *rapid.T, base, class string) string {
 		return "/" + seg + "zz/" + seg
 	case "root":
 		return "/"
+	case "final-dot":
+		// a last segment "." without a slash behind it: cleans to the mount without its slash
+		return base + "/."
+	case "final-dotdot-back":
+		// ... "/seg/.." at the very end: cleans to the mount without its slash
+		return base + "/" + seg + "/.."
+	case "final-dotdot-out":
+		// cleans to the parent of the mount
+		return base + "/.."
+	case "final-dot-deep":
+		// cleans to a sub-path of the mount
+		return base + "/" + seg + "/" + seg + "/."
+	case "dot-name":
+		// segments that merely contain dots are ordinary names
+		return base + "/..." + seg + "/.x./" + seg + ".."
 	default: // parent-of-mount
 		if i := strings.LastIndex(base, "/"); i > 0 {
 			return base[:i] + "/"
@@ -207,7 +222,7 @@ func (m *markerHandler) ServeHTTP(w http.ResponseWriter, r *http.Request) {
 
 func TestC05Routing(t *testing.T) {
 	col := NewCollector("TestC05Routing",
-		"exhaustive table: attach mode {nil, server options only, attach options, both} x path {unset, /engine.io, /engine.io/, /x/y, /x/y/, /socket.io, /a} x addTrailingSlash {unset,true,false} x {engine.Attach, engine.New} x request path class {exact, exact+slash, sub-path, sub-path+slash, missing-slash, longer-name, dot-segments (resolving to the path), dot-segments leaving it, doubled-slashes, case-variant, unrelated, root, parent}; every cell instantiated with rapid-drawn segments and methods, sent through types.HttpServer.ServeHTTP whose default handler is a marker; oracle: engine iff refClean(path) equals the mount (prefix iff mount ends in '/'), other requests reach the marker with method/path/query untouched. non-trivial: the raw path differs from its cleaned form, or the attach options are absent/partial (default mount)").Use(t)
+		"exhaustive table: attach mode {nil, server options only, attach options, both} x path {unset, /engine.io, /engine.io/, /x/y, /x/y/, /socket.io, /a} x addTrailingSlash {unset,true,false} x {engine.Attach, engine.New} x request path class {exact, exact+slash, sub-path, sub-path+slash, missing-slash, longer-name, dot-segments (resolving to the path), dot-segments leaving it, a final dot or dot-dot segment without a slash behind it (cleaning to the mount without its slash, to its parent, to a sub-path), names that merely contain dots, doubled-slashes, case-variant, unrelated, root, parent}; every cell instantiated with rapid-drawn segments and methods, sent through types.HttpServer.ServeHTTP whose default handler is a marker; oracle: engine iff refClean(path) equals the mount (prefix iff mount ends in '/'), other requests reach the marker with method/path/query untouched. non-trivial: the raw path differs from its cleaned form, or the attach options are absent/partial (default mount)").Use(t)
 	specs := allAttachSpecs()
 	knownDefault := isKnown("C05", sigDefaultPath)
 	rapid.Check(t, func(rt *rapid.T) {
